@@ -8,6 +8,7 @@ import (
 	"sync"
 	"time"
 
+	"github.com/google/go-eventlog/extract"
 	"github.com/google/go-eventlog/proto/state"
 	"github.com/google/go-eventlog/register"
 	"github.com/google/go-eventlog/tcg"
@@ -119,6 +120,15 @@ func RunCcelCase(cs map[string]any, id int, seed int64, bits int) Result {
 		opts := rtmr.TdxDefaultOpts(s.nonce)
 		lvl := int(cs["lvl"].(float64))
 		opts.Verification = VerifyOpts(c, []map[string]any{{"gc": false, "cr": false}, {"gc": true, "cr": false}, {"gc": true, "cr": true}}[lvl])
+		if cs["ld"] == "unsupported" {
+			opts.ExtractOpt = extract.Opts{}
+		}
+		switch cs["cf"] {
+		case "pckCrlFails":
+			opts.Verification.Getter = &failingGetter{inner: c.Getter, failing: "pckcrl", c: c}
+		case "rootCrlFails":
+			opts.Verification.Getter = &failingGetter{inner: c.Getter, failing: "rootcrl", c: c}
+		}
 		pol := opts.Validation
 		switch cs["p"].(string) {
 		case "ok":
